@@ -8,7 +8,7 @@ import re
 from . import coqfmt
 from .common import gallina_str, gallina_list, gallina_opt, gallina_bool
 
-HEADER = ("From CV Require Import Base.Str Apath Entry Store Stitch StitchProg Codec Backup Ops Delete Read Inv Conf Corr.Run Corr.Trace.\n"
+HEADER = ("From CV Require Import Base.Str Apath Entry Store Stitch StitchProg Codec Backup Ops Delete Read Inv Conf Valid Truth E2E Corr.Run Corr.Trace.\n"
           "Local Open Scope N_scope.\n")
 
 BAND_RE = re.compile(r"^b(\d+)$")
@@ -384,6 +384,9 @@ class History:
         self.walk = None
         self.base_name = None
         self.base_items = None
+        self.check_premises = True     # off for histories that start from a deliberately damaged state
+        self.expect_ready = False      # set by a caller whose histories are fault-free: E2E.Ready holds before every backup
+        self.expect_healthy = False    # set by a caller whose histories have no faults and no kill before a band head
         if parent is None:
             self.state = f"a_{cid}_0"
             self.lines.append(f"Definition {self.state} : Store.arch := Store.arch0.")
@@ -393,6 +396,8 @@ class History:
             self.walk = parent.walk
             self.base_name = parent.base_name
             self.base_items = parent.base_items
+            self.expect_healthy = parent.expect_healthy
+            self.expect_ready = parent.expect_ready
 
     def fork(self, cid):
         return History(cid, self.names, group=self.group, parent=self)
@@ -467,6 +472,10 @@ class History:
             return
         self.k += 1
         s = f"s_{self.cid}_{self.k}"
+        if self.expect_ready and op == "backup":
+            name5 = f"c_{self.cid}_{self.k}_ready"
+            self.lines.append(f"Definition {name5} : N := if ready_b pre {self.state} then 0 else 9.")
+            self.checks.append((name5, f"Ready (E2E.ready_b) of the state before step {self.k} (backup)"))
         if crash is not None:
             self.lines.append(f"Definition {s} := run_phi pre {prog} {self.state} (crash_at {crash[0]} {gallina_bool(crash[1])}).")
         elif fail is not None:
@@ -479,20 +488,38 @@ class History:
         self.checks.append((name, f"step {self.k} ({op})"))
         self.state = f"a_{self.cid}_{self.k}"
         self.lines.append(f"Definition {self.state} : Store.arch := r_arch {s}.")
-        if op == "backup":
+        if op == "backup" and self.check_premises:
             # the hypotheses of the invariant theorems hold of this run's inputs and of the state it reaches
             name3 = f"c_{self.cid}_{self.k}_premises"
             srcname = f"src_{self.cid}_{self.k}"
             self.lines.append(f"Definition {srcname} := {g_sitems(self.walk, self.src_tree)}.")
             self.lines.append(f"Definition {name3} : N := if srcsorted_b {srcname} && srcvalid_b {srcname} && srcwf_b {srcname} "
-                              f"&& conf_b {self.state} && ainv_b {self.state} && wfparents_b pre {self.state} then 0 else 7.")
-            self.checks.append((name3, f"premises/invariants (SrcSorted, SrcValid, SrcWF, Conf, AInv, WFparents) at step {self.k}"))
+                              f"&& srcok_b {srcname} && conf_b {self.state} && ainv_b {self.state} && wfparents_b pre {self.state} "
+                              f"&& dirswf_b pre {self.state} then 0 else 7.")
+            self.checks.append((name3, f"premises/invariants (SrcSorted, SrcValid, SrcWF, SrcOK, Conf, AInv, WFparents, DirsWF) at step {self.k}"))
+        if self.expect_healthy and op in ("init", "backup", "delete") and fail is None and not rules and not (crash is not None and crash[1]):
+            name4 = f"c_{self.cid}_{self.k}_healthy"
+            self.lines.append(f"Definition {name4} : N := if healthy_b pre {self.state} then 0 else 8.")
+            self.checks.append((name4, f"Healthy (Valid.healthy_b) of the state after step {self.k} ({op})"))
         if op == "restore" and res.get("result") == "ok" and res.get("tree") and not step.get("subtree"):
             # what the model says each file restores to == the bytes found in the restored tree
             from . import gen as _gen
             files = sorted(tree_data(res["tree"]).items(), key=lambda kv: _gen.apath_key(kv[0]))
             impl_files = gallina_list(["(" + gallina_str(p) + "," + gallina_str(d) + ")" for p, d in files])
             name2 = f"c_{self.cid}_{self.k}_restored"
+            if not self.check_premises:
+                # damaged archive: every file the model restores is there with exactly those bytes; anything else in the
+                # destination is a file the model reports as not restored (restore may leave it partly written)
+                self.lines.append(
+                    f"Definition {name2} : N := match r_out {s} with Store.Done r => "
+                    f"let some := flat_map (fun f => match f with RFile e (Some c) => match e_kind e with KFile => [(e_apath e, c)] | _ => [] end | _ => [] end) (r_files r) in "
+                    f"let none := flat_map (fun f => match f with RFile e None => [e_apath e] | _ => [] end) (r_files r) in "
+                    f"let impl := {impl_files} in "
+                    f"if forallb (fun x => existsb (fun y => str_eqb (fst x) (fst y) && str_eqb (snd x) (snd y)) impl) some "
+                    f"&& forallb (fun y => existsb (fun x => str_eqb (fst x) (fst y)) some || existsb (str_eqb (fst y)) none) impl "
+                    f"then 0 else 4 | _ => 4 end.")
+                self.checks.append((name2, f"restored file contents at step {self.k} (damaged archive)"))
+                return
             self.lines.append(
                 f"Definition {name2} : N := match r_out {s} with Store.Done r => "
                 f"if list_eqb (fun x y => str_eqb (fst x) (fst y) && str_eqb (snd x) (snd y)) "
